@@ -685,7 +685,9 @@ func AddMerges(t *tape.Tape, root *yaml.Node) int {
 	}
 	tpls := &yaml.Node{Kind: yaml.SequenceNode, Tag: "!!seq"}
 	n := 0
-	junk := func() *yaml.Node { return &yaml.Node{Kind: yaml.ScalarNode, Tag: "!!str", Value: "overridden-template-value"} }
+	junk := func() *yaml.Node {
+		return &yaml.Node{Kind: yaml.ScalarNode, Tag: "!!str", Value: "overridden-template-value"}
+	}
 	merge := func(target *yaml.Node) []*yaml.Node {
 		return []*yaml.Node{{Kind: yaml.ScalarNode, Tag: "!!merge", Value: "<<"}, {Kind: yaml.AliasNode, Alias: target, Value: target.Anchor}}
 	}
